@@ -43,11 +43,74 @@ def self_path(e):
     return out
 
 
+def _item_path(e, is_root):
+    """field path from the iterated item down to e (refs / derefs ignored), or None"""
+    e = norm(e)
+    parts = []
+    for _ in range(12):
+        if is_root(e):
+            return tuple(reversed(parts))
+        if e[0] == 'field':
+            parts.append(e[2])
+            e = norm(e[1])
+        elif e[0] in ('downcast', 'cast'):
+            e = norm(e[1])
+        else:
+            return None
+    return None
+
+
+def _desc(kind, a, b, is_root):
+    """predicate descriptor independent of how the item is bound: (kind, path of the compared component, other side)"""
+    pa, pb = _item_path(a, is_root), (_item_path(b, is_root) if b is not None else None)
+    if pa is not None and pb is None:
+        return (kind, pa, e2.shape(b) if b is not None else None)
+    if pb is not None and pa is None:
+        return (facts.SWAP.get(kind, kind), pb, e2.shape(a))
+    return (kind, e2.shape(a), e2.shape(b) if b is not None else None)
+
+
 def pred_shape(crate, closure_expr):
     pred, cf, agg = q.closure_pred(crate, closure_expr)
     if pred is None:
         return None
-    return (pred[0], e2.shape(pred[1]), e2.shape(pred[2]) if pred[2] is not None else None)
+    return _desc(pred[0], pred[1], pred[2], lambda x: x[0] == 'param' and x[1] == 2)
+
+
+def counting_loops(sh):
+    """`let mut n = 0; for item in SRC.clone() { if P(item) { n += 1 } }` in size_hint: (source expr, descriptor, line)"""
+    out = []
+    for h, body in sh.loops:
+        t = sh.blocks[h]['term']
+        if t['t'] != 'call' or short(t['callee'].get('path') or '') != 'next' or not t['args']:
+            continue
+        it = sh.call_expr(t, h)
+        site = it[3]
+        is_item = lambda x: x[0] == 'field' and x[2] == '0' and norm(x[1])[0] == 'downcast' and norm(x[1])[2] == 'Some' and norm(norm(x[1])[1])[0] == 'call' and norm(norm(x[1])[1])[3] == site
+        src = strip_refs(it[2][0])
+        while src[0] == 'call' and short(src[1]) in ('into_iter', 'by_ref', 'iter') and src[2]:
+            src = strip_refs(src[2][0])
+        inner = src[2][0] if src[0] == 'call' and short(src[1]) == 'clone' and src[2] else src
+        for l, ds in sh.defs.items():
+            if not facts.SCALAR_TY.match(sh.locals[l]['ty']) or sh.locals[l]['ty'] in ('f64', 'f32', 'bool'):
+                continue
+            ins = [d for d in ds if d[1] in body and d[0] == 'assign']
+            outs = [d for d in ds if d[1] not in body]
+            if len(ins) != 1 or len(outs) != 1 or outs[0][0] != 'assign':
+                continue
+            init = sh.rvalue_expr(outs[0][3], outs[0][1])
+            step = strip_refs(sh.rvalue_expr(ins[0][3], ins[0][1]))
+            if step[0] == 'field':
+                step = strip_refs(step[1])
+            if not facts.is_const(init, 0) or not (step[0] == 'bin' and step[1] in ('Add', 'AddWithOverflow') and facts.is_const(step[3], 1)):
+                continue
+            conds = [c for c in sh.conds(ins[0][1]) if c['switch'] in body and c['kind'] in ('Gt', 'Ge', 'Lt', 'Le', 'Eq', 'Ne') and c.get('truth') is True]
+            if len(conds) == 1:
+                c = conds[0]
+                out.append((inner, _desc(c['kind'], c['a'], c['b'], is_item), t['line']))
+            elif not conds:
+                out.append((inner, None, t['line']))
+    return out
 
 
 def analyse_next(crate, nx):
@@ -113,6 +176,10 @@ def analyse_hint(crate, sh):
                     path = self_path(src)
                 if path is not None:
                     hint[path] = {'how': 'count', 'pred': pred_shape(crate, fe[2][1]), 'line': t['line']}
+    for src, desc, line in counting_loops(sh):
+        path = self_path(src)
+        if path is not None and desc is not None:
+            hint[path] = {'how': 'count', 'pred': desc, 'line': line}
     # plain field lengths through PtrMetadata (slice.len() is lowered to it at opt-level 0 sometimes)
     for bi, si, st in sh.assigns():
         e = sh.rvalue_expr(st['rv'], bi)
